@@ -48,14 +48,19 @@ def function_level(ck, rng, lams):
                 a = S.get_cider_exponent(rho.copy(), sigma.copy(), tau.copy(), a0=a0, grad_mul=gm, tau_mul=tm, rhocut=0.0, nspin=nspin)
                 b = S.get_cider_exponent(r2.copy(), s2_.copy(), t2.copy(), a0=a0, grad_mul=gm, tau_mul=tm, rhocut=0.0, nspin=nspin)
                 ck.count(key=("expnt", lam, nspin, a0, gm, tm))
-                errs = [relerr(b[0], lam ** 2 * a[0]), relerr(b[1], lam ** -1 * a[1]), relerr(b[3], lam ** -3 * a[3])]
+                # derivatives are sums of terms of either sign: their round-off is relative to the size of the terms (a / variable),
+                # not to a sum that may nearly cancel at a point (seed 2 drew such a point: 2e-11 pointwise relative)
+                def derr(bk, ak, pw, var):
+                    sc = np.abs(lam ** pw * a[0] / np.maximum(var, 1e-300))
+                    return float(np.max(np.abs(bk - lam ** pw * ak) / np.maximum(sc, np.abs(lam ** pw * ak))))
+                errs = [relerr(b[0], lam ** 2 * a[0]), derr(b[1], a[1], -1, rho), derr(b[3], a[3], -3, tau)]
                 if gm != 0:
-                    errs.append(relerr(b[2], lam ** -6 * a[2]))
+                    errs.append(derr(b[2], a[2], -6, sigma))
                 if max(errs) > TOL:
                     ck.violation("exponent:mgga:power-not-2", {"lam": lam, "nspin": nspin, "err": errs})
                 a = S.get_cider_exponent_gga(rho.copy(), sigma.copy(), a0=a0, grad_mul=gm, rhocut=0.0, nspin=nspin)
                 b = S.get_cider_exponent_gga(r2.copy(), s2_.copy(), a0=a0, grad_mul=gm, rhocut=0.0, nspin=nspin)
-                if max(relerr(b[0], lam ** 2 * a[0]), relerr(b[1], lam ** -1 * a[1])) > TOL:
+                if max(relerr(b[0], lam ** 2 * a[0]), derr(b[1], a[1], -1, rho)) > TOL:
                     ck.violation("exponent:gga:power-not-2", {"lam": lam, "nspin": nspin})
         # ---- reduced variables are invariant
         if relerr(S.get_s2(r2, s2_), S.get_s2(rho, sigma)) > 1e-9:
